@@ -12,6 +12,21 @@ reg("C16",
                  "data races are invisible to this technique"],
     )
 
+reg("C16",
+    name="C16_queue_mt", src="harness/C16_queue_mt.cpp", threads=True,
+    anchor_files=["src/hgraph/runtime/push_source_node.cpp", "include/hgraph/runtime/push_source_node.h", "src/hgraph/runtime/executor.cpp", "src/hgraph/runtime/graph.cpp"],
+    quick=dict(defs=dict(NPROD=1, MSGS=2, WIN_US=30), symx=dict(shards=16, **{"max-wall": 900, "max-preempt": 2}), validate=4),
+    thorough=dict(defs=dict(NPROD=2, MSGS=2, WIN_US=30), symx=dict(shards=16, **{"max-wall": 3000, "max-preempt": 2, "shard-depth": 10}), validate=8),
+    reach=["end", "run_returned", "stopper_present", "all_values_accepted_and_delivered"],
+    bounds="NPROD producer threads each sending MSGS payloads (try_send or send_blocking, enumerated) into a queue push source with capacity in {unbounded,1,2}, an optional "
+           "stopper thread calling request_stop, and the real-time run loop on the main thread; every interleaving at synchronisation operations (mutex lock/unlock, "
+           "condition wait/notify, atomic read-modify-write, thread start/exit) with at most max-preempt preemptive switches",
+    outside="interleavings that need more preemptions; data races (code between two synchronisation operations is treated as atomic); burst/conflating policies; OS scheduling fairness",
+    assumptions=["threads are symx interpreter threads: counterexamples are re-executed concretely inside symx along the recorded schedule (replay_kind=interpreted), not on native threads",
+                 "a timed wait times out only when no other thread can run (time does not pass while some thread is runnable)",
+                 "the code is data-race free: only synchronisation operations are scheduling points"],
+    )
+
 META = dict(
     level="bounded symbolic model checking of the queue push source (push_source_node.cpp QueuePolicyStorage, sender control, emit path) inside the real real-time executor, "
           "with the producer acting at every wait point, in the start callback and during evaluation",
